@@ -679,7 +679,11 @@ def main():
     ndiff = a.ndiff if a.ndiff is not None else (6 if tier == 'quick' else 25)
     random.Random(seed).shuffle(jobs)
     with cf.ThreadPoolExecutor(max_workers=a.jobs) as ex:
-        results = list(ex.map(lambda j: run_job(j, ndiff), jobs))
+        def _run(j):
+            r = run_job(j, ndiff)
+            sys.stderr.write('[done] %s %s cbmc=%ss\n' % (r['id'], r['status'], r.get('cbmc_wall_s'))); sys.stderr.flush()   # progress (the table follows at the end)
+            return r
+        results = list(ex.map(_run, jobs))
     results.sort(key=lambda r: r['id'])
     known = [k for k in load_known() if k.get('property') == a.prop and k.get('status', 'open') == 'open']
     broken = [r for r in results if r['status'] != 'ok']
